@@ -272,6 +272,7 @@ class ProxyClient(object):
         run.saw_produce(payloads, acks, fail_on_error)
         run.nreq += 1
         run.cur_request = [(p.topic, p.partition) for p in payloads]
+        run.acks0_err = {}
         d = self._real.send_produce_request(payloads, acks=acks, timeout=timeout, fail_on_error=fail_on_error, callback=callback)
         run.visible[("req", run.nreq)] = d
         d.addBoth(run.deliver, "req", run.nreq)
@@ -306,6 +307,9 @@ class Run2(PL.ImplRun):
         self._cfg0 = cfg
         self.req_ctimer = {}     # rid -> cid
         self._submitting = self._submit_idx = self._nested_idx = None
+        self.cevents = []        # composed-model events (Model/ProducerCompose.v), parallel to self.events
+        self.cur_cevent = None
+        self.acks0_err = {}
         self.last_rid = None
         self.acks0_faults = list(cfg.get("acks0_faults", []))
         PL.ImplRun.__init__(self, cfg, self._make_client)
@@ -372,7 +376,8 @@ class Run2(PL.ImplRun):
                     return d
                 # acks=0: the broker client reports success as soon as the bytes are queued; the broker applies them
                 self.handed.append((len(self.trace), node, expect, br.req["acks"], pls))
-                self.cluster.produce(len(self.trace), node, br.req["payloads"], {})
+                for (tn, p, e, _o) in self.cluster.produce(len(self.trace), node, br.req["payloads"], {}):
+                    self.acks0_err[(TOPICS.index(tn), p)] = e      # the client never learns about it
                 d.callback(None)
             else:
                 self.handed.append((len(self.trace), node, expect, br.req["acks"], pls))
@@ -414,6 +419,7 @@ class Run2(PL.ImplRun):
             if v != self.mcache.get(t, (3, False)):
                 self.mcache[t] = v
                 self.events.append([5, t, v[0], 1 if v[1] else 0])
+                self.cevents.append([0, 4, 5, t, v[0], 1 if v[1] else 0])
                 self.trace.append([])
                 self.idle_after.append(None)
 
@@ -421,9 +427,10 @@ class Run2(PL.ImplRun):
         pass
 
     # -- steps
-    def open_step(self, mev):
+    def open_step(self, mev, cev=None):
         self.cur = []
         self.cur_event = mev
+        self.cur_cevent = cev
         self.step_open = True
 
     def close_step(self):
@@ -431,10 +438,42 @@ class Run2(PL.ImplRun):
             if self._submitting is not None and self._submit_idx is None:
                 self._submit_idx = len(self.trace)
             self.events.append(self.cur_event)
+            self.cevents.append(self.cur_cevent if self.cur_cevent is not None else [0, len(self.cur_event)] + list(self.cur_event))
+            self.cur_cevent = None
             self.trace.append(sorted(self.cur))
             self.idle_after.append(None)
             self.cur = None
             self.step_open = False
+
+    def plan_of_value(self, v, stop=False):
+        """the composed-model event for a result of send_produce_request: what the cluster did with each payload of the
+        request in flight, as far as the client's aggregate tells (acknowledged = appended at the leader)"""
+        acks = self.cfg["acks"]
+        req = [(TOPICS.index(t), p) for (t, p) in (self.cur_request or [])]
+        tag = v[0]
+        if tag in ("kafka", "other"):
+            return [23 if stop else 21, 1 if tag == "kafka" else 0, v[1]]
+        q = []
+        def handed(t, p):
+            # acks=0: handed to a connection; whether the broker appended it (it is the leader) the client never learns
+            e = self.acks0_err.get((t, p), 0)
+            return [t, p, 0, 0, 0] if e == 0 else [t, p, 1, e, 0]
+        if tag == "empty":
+            for (t, p) in req:
+                q += handed(t, p)
+        else:
+            rs = v[1] if tag in ("resp", "failed") else []
+            fs = v[2] if tag == "failed" else []
+            for (t, p, e, _o) in rs:
+                q += [t, p, 0, 0, 0] if e == 0 else [t, p, 1, e, 0]
+            for (t, p, k) in fs:
+                q += [t, p, 2, k, 0]
+            if acks == 0:
+                failed = set((t, p) for (t, p, _k) in fs)
+                for (t, p) in req:
+                    if (t, p) not in failed:
+                        q += handed(t, p)
+        return [22 if stop else 20, len(q)] + q
 
     def emit(self, o):
         # The Deferred of the send being submitted may fire INSIDE send_messages, but the driver can attach its
@@ -482,6 +521,7 @@ class Run2(PL.ImplRun):
                 self.stop_value = v
                 return r
             mev = [10] + self.value_ints(v)
+            cev = self.plan_of_value(v)
         elif kind == "load":
             if self.in_stop:
                 return r
@@ -500,7 +540,7 @@ class Run2(PL.ImplRun):
         self.sync_meta()
         if self._submitting is not None and self._nested_idx is None:
             self._nested_idx = len(self.trace)
-        self.open_step(mev)
+        self.open_step(mev, cev if kind == "req" else None)
         return r
 
     def busy(self):
@@ -516,6 +556,7 @@ class Run2(PL.ImplRun):
             self.step_open = True
             self._submitting = ev[1] if op in ("send", "badsend") else None
             self._submit_idx = self._nested_idx = None
+            self.cur_cevent = None
             PL.ImplRun._apply(self, ev)       # sets self.cur_event before it calls into the producer
             self._submitting = None
             self.close_step()
@@ -528,8 +569,10 @@ class Run2(PL.ImplRun):
             had_req = any(k[0] == "req" for k in self.visible)
             self.producer.stop()
             self.in_stop = False
+            self.cur_cevent = [22, -1]
             if had_req and self.stop_value is not None:
                 self.cur_event = [11] + self.value_ints(self.stop_value)
+                self.cur_cevent = self.plan_of_value(self.stop_value, stop=True)
             if self.stopped_at is None:
                 self.stopped_at = len(self.events)
             self.close_step()
@@ -736,6 +779,8 @@ def gen_run2(rnd, cfg=None, nev=None):
             tail -= 1
             if tail < 0:
                 break
+    if any(k[0] == "req" for k in run.visible):
+        apply2(run, ("stop",))     # the composed comparison of the logs needs every request accounted for
     return run
 
 
@@ -933,3 +978,57 @@ def jsonable(x):
     if isinstance(x, bytes):
         return x.decode("latin-1")
     return x
+
+
+# ====================================================================== composed model (Model/ProducerCompose.v)
+def kv_mids(run, kvs):
+    """(key, value) pairs of a partition log -> message ids (the identification rules of producer_lib)"""
+    bykey = {k: sid for sid, (k, _m) in run.sends.items() if k is not None}
+    used, out = set(), []
+    for key, val in kvs:
+        mid = -1
+        if val and b"|" in val[:24]:
+            try:
+                a, b = val.split(b"|", 1)[0].split(b":")
+                sid, idx = int(a), int(b)
+                if sid in run.sends and idx < len(run.sends[sid][1]) and run.sends[sid][1][idx] == val and run.sends[sid][0] == key:
+                    mid = sid * MID + idx
+            except ValueError:
+                pass
+        elif key is not None and key in bykey:
+            sid = bykey[key]
+            for idx, mm in enumerate(run.sends[sid][1]):
+                if mm == val and (sid, idx) not in used and (mm is None or mm == b""):
+                    mid = sid * MID + idx
+                    break
+        if mid >= 0:
+            used.add((mid // MID, mid % MID))
+        out.append(mid)
+    return out
+
+
+def composed_case(run):
+    """case line for Model.ProducerCompose.run_case: the cevents recorded by driver 2, sends' choices patched in"""
+    line = run.model_cfg()
+    for i, (ev, cev) in enumerate(zip(run.events, run.cevents)):
+        if ev[0] == 1 and cev[0] == 0:
+            sid = run.send_ev[i]
+            e2 = list(ev)
+            e2[2] = run.choice.get(sid, run.inferred_choice(sid))
+            cev = [0, len(e2)] + e2
+        line += cev
+    return line
+
+
+def composed_impl(run):
+    """the implementation side: its producer trace, then the simulated cluster's partition logs as message ids"""
+    out = run.flat_trace() + [-7]
+    logs = []
+    for (t, p), kvs in sorted(run.cluster.log.items()):
+        if kvs:
+            mids = kv_mids(run, kvs)
+            logs.append([t, p, len(mids)] + mids)
+    out.append(len(logs))
+    for l in logs:
+        out += l
+    return out
